@@ -7,3 +7,9 @@ import BromeliaVerif.Properties.C02
 import BromeliaVerif.Properties.C03
 import BromeliaVerif.Properties.C10
 import BromeliaVerif.Properties.C09
+import BromeliaVerif.Properties.C11
+import BromeliaVerif.Properties.C12
+import BromeliaVerif.Properties.C13
+import BromeliaVerif.Properties.C15
+import BromeliaVerif.Properties.C16
+import BromeliaVerif.Properties.C19
